@@ -299,7 +299,8 @@ def u_ctx(ctx, u):
                 continue
             if not pool:
                 pool = [k for k in U.draws_as_scalars(U.entropy_log(ctx)) if 0 < k < N]
-                ctx.check(len(pool) == 32, 'harness:unexpected-refill-draws', n=len(pool))
+                if not ctx.check(len(pool) == 32, 'signctx:table-exhausted-without-fresh-nonces', n=len(pool), j=j):
+                    break
                 ctx.stat('ctx_refills')
             k = pool.pop()           # consumed from the top of the table
             ctx.check(k not in used, 'signctx:nonce-reused', j=j)
@@ -432,6 +433,26 @@ def u_rs(ctx, u):
     lib.sm2_z256_point_mul_pre_compute(key.ptr + ctx.L['off_SM2_KEY_public_key'], tbl)
     eb = ctx.inbuf(e)
     pairs = [(r, s) for r in vals for s in vals] + [(good[0], (N - good[0]) % N), ((N - good[1]) % N, good[1])]
+    crafted = _crafted_forgeries(rng, pk)
+    for (r, s, ee, why) in crafted:
+        # digests chosen so that the verification equation WOULD hold if one range / t != 0 check were missing
+        ref_ok = R.verify_rs(pk, ee, r, s)
+        sb = ctx.inbuf(R.i2b(r) + R.i2b(s))
+        ebb = ctx.inbuf(ee)
+        ctx.begin(['crafted', why])
+        a1 = lib.sm2_do_verify(key, ebb, sb) == 1
+        a2 = lib.sm2_fast_verify(tbl, ebb, sb) == 1
+        ctx.check(not a1 or ref_ok, 'verify:accepted-invalid:crafted-%s:sm2_do_verify' % why, r=hex(r), s=hex(s), e=ee.hex())
+        ctx.check(not a2 or ref_ok, 'verify:accepted-invalid:crafted-%s:sm2_fast_verify' % why, r=hex(r), s=hex(s), e=ee.hex())
+        if r < (1 << 256) and s < (1 << 256) and len(R.sig_der(r, s)) <= 72:
+            der = R.sig_der(r, s)
+            db = ctx.inbuf(der)
+            a3 = lib.sm2_verify(key, ebb, db, len(der)) == 1
+            ctx.check(not a3 or ref_ok, 'verify:accepted-invalid:crafted-%s:sm2_verify' % why, der=der.hex(), e=ee.hex())
+            db.free()
+        ctx.nontrivial('crafted', why, r, s)
+        sb.free()
+        ebb.free()
     for r, s in pairs:
         ref_ok = R.verify_rs(pk, e, r, s)
         sb = ctx.inbuf(R.i2b(r) + R.i2b(s))
@@ -455,6 +476,41 @@ def u_rs(ctx, u):
     ctx.sample({'kind': 'rs', 'd': hex(d), 'e': e.hex(), 'pairs': len(pairs)})
     for b in (tbl, eb, key):
         b.free()
+
+
+def _crafted_forgeries(rng, pk):
+    """(r, s, digest, name): tuples outside the legal ranges for which e was solved from r' = e + x1 so that an
+    implementation lacking the corresponding check accepts a signature made without the private key."""
+    out = []
+
+    def x_of(s_, t_):
+        pt = R.add(R.mul(s_ % N, R.G), R.mul(t_ % N, pk))
+        return None if pt is R.INF else pt[0]
+    for _ in range(2):
+        s = rng.randrange(1, N)
+        # t = r + s = 0 (mod n): point = [s]G
+        r = N - s
+        x = x_of(s, 0)
+        if x is not None:
+            out.append((r, s, R.i2b((r - x) % N), 't=0'))
+        # s = n: [n]G = O, point = [r]P
+        r = rng.randrange(1, N)
+        x = x_of(0, r)
+        if x is not None:
+            out.append((r, N, R.i2b((r - x) % N), 's=n'))
+            out.append((r, 0, R.i2b((r - x) % N), 's=0'))
+        # r = 0: point = [s]G + [s]P, r' must be 0
+        x = x_of(s, s)
+        if x is not None:
+            out.append((0, s, R.i2b((-x) % N), 'r=0'))
+            out.append((N, s, R.i2b((-x) % N), 'r=n'))
+        # s = n + s0 > n (needs a 257-bit s only when s0 large; keep those that fit)
+        s0 = rng.randrange(1, (1 << 256) - N)
+        r = rng.randrange(1, N)
+        x = x_of(s0, r + s0)
+        if x is not None:
+            out.append((r, N + s0, R.i2b((r - x) % N), 's>n'))
+    return out
 
 
 def _der_mutants(r, s):
